@@ -61,12 +61,12 @@ Proof.
   destruct e as [i|c|s|s|s ok|s ok]; cbn [sess_step pspec_step].
   - (* login *)
     destruct (nth_error users i) as [u|] eqn:E; cbn [fst snd map].
-    + split; [|reflexivity]. rel_split; cbn [s_base s_cwd s_rnfr p_cur p_stack p_rnfr].
+    + split; [|reflexivity]. rel_split; cbn [s_base s_cwd s_rnfr p_cur p_stack p_rnfr option_map].
       * symmetry. apply base_of_nth. exact E.
       * apply (homes_nth users i u Hh E).
       * reflexivity.
-      * exact Hr.
-    + split; [|reflexivity]. rel_split; assumption.
+      * reflexivity.
+    + split; [|reflexivity]. rel_split; cbn [s_base s_cwd s_rnfr p_cur p_stack p_rnfr option_map]; try assumption; reflexivity.
   - (* cwd / cdup *)
     destruct c as [s ok|ok].
     + cbn [nav_step]. rewrite (get_paths_spec (s_base st) (s_cwd st) s Hc), Hp.
@@ -137,34 +137,45 @@ Proof. intros Hh E. apply run_rel; [exact Hh|]. apply start_rel; assumption. Qed
 (* ---- confinement in the CURRENT user's base ---- *)
 Definition lab_ok (l : lab) : Prop := Forall seg_ok (l_names l) /\ no_dotdot (l_names l) = true.
 
+(* a pending rename source was resolved under the current login: user() drops it *)
 Definition pinv (ps : pst) : Prop :=
   Forall seg_ok (p_stack ps)
-  /\ match p_rnfr ps with Some (_, c) => Forall seg_ok c /\ no_dotdot c = true | None => True end.
+  /\ match p_rnfr ps with
+     | Some (o, c) => o = p_cur ps /\ Forall seg_ok c /\ no_dotdot c = true
+     | None => True
+     end.
+
+Definition lab_good (cur : nat) (l : lab) : Prop := l_owner l = cur /\ lab_ok l.
 
 Lemma pstep_inv users ps e : homes_ok users -> pinv ps ->
-  pinv (fst (pspec_step users ps e)) /\ Forall lab_ok (snd (pspec_step users ps e)).
+  pinv (fst (pspec_step users ps e)) /\ Forall (lab_good (p_cur ps)) (snd (pspec_step users ps e)).
 Proof.
   intros Hh [Hs Hr].
   pose proof (fun s => normalize_ok (p_stack ps) s Hs) as Hn.
   pose proof (spec_cdup_ok (p_stack ps) Hs) as Hcd.
+  assert (G : forall n, Forall seg_ok n /\ no_dotdot n = true -> lab_good (p_cur ps) (mklab (p_cur ps) n false))
+    by (intros n Hn'; split; [reflexivity|exact Hn']).
+  assert (G' : forall n, Forall seg_ok n /\ no_dotdot n = true -> lab_good (p_cur ps) (mklab (p_cur ps) n true))
+    by (intros n Hn'; split; [reflexivity|exact Hn']).
   destruct e as [i|c|s|s|s ok|s ok]; cbn [pspec_step].
   - destruct (nth_error users i) as [u|] eqn:E; cbn [fst snd]; (split; [|constructor]).
-    + split; cbn [p_stack p_rnfr]; [apply (proj2 (homes_nth users i u Hh E))|exact Hr].
-    + split; assumption.
+    + split; cbn [p_stack p_rnfr]; [apply (proj2 (homes_nth users i u Hh E))|exact Logic.I].
+    + split; cbn [p_stack p_rnfr]; [assumption|exact Logic.I].
   - destruct c as [s ok|ok]; cbn [fst snd].
-    + split; [|repeat constructor; cbn [l_names]; apply Hn].
-      destruct ok; split; cbn [p_stack p_rnfr]; try assumption. apply Hn.
-    + split; [|repeat constructor; cbn [l_names]; apply Hcd].
-      destruct ok; split; cbn [p_stack p_rnfr]; try assumption. apply Hcd.
-  - cbn [fst snd]. split; [split; assumption|repeat constructor; cbn [l_names]; apply Hn].
-  - cbn [fst snd]. split; [split; assumption|repeat constructor; cbn [l_names]; apply Hn].
-  - cbn [fst snd]. split; [|repeat constructor; cbn [l_names]; apply Hn].
-    destruct ok; [|split; assumption]. split; cbn [p_stack p_rnfr]; [assumption|apply Hn].
+    + split; [|apply Forall_cons; [apply G; apply Hn|apply Forall_nil]].
+      destruct ok; split; cbn [p_stack p_rnfr p_cur]; try assumption. apply Hn.
+    + split; [|apply Forall_cons; [apply G; apply Hcd|apply Forall_nil]].
+      destruct ok; split; cbn [p_stack p_rnfr p_cur]; try assumption. apply Hcd.
+  - cbn [fst snd]. split; [split; assumption|apply Forall_cons; [apply G; apply Hn|apply Forall_nil]].
+  - cbn [fst snd]. split; [split; assumption|apply Forall_cons; [apply G'; apply Hn|apply Forall_cons; [apply G; apply Hn|apply Forall_nil]]].
+  - cbn [fst snd]. split; [|apply Forall_cons; [apply G; apply Hn|apply Forall_nil]].
+    destruct ok; [|split; assumption]. split; cbn [p_stack p_rnfr p_cur]; [assumption|].
+    split; [reflexivity|apply Hn].
   - destruct (p_rnfr ps) as [[o c]|] eqn:Ern.
-    + destruct ok; cbn [fst snd].
+    + destruct Hr as [Ho Hc]. destruct ok; cbn [fst snd].
       * split; [split; cbn [p_stack p_rnfr]; [assumption|exact Logic.I]|].
-        repeat constructor; cbn [l_names]; try apply Hn; apply Hr.
-      * split; [split; [assumption|rewrite Ern; exact Hr]|repeat constructor; cbn [l_names]; apply Hn].
+        apply Forall_cons; [apply G; apply Hn|apply Forall_cons; [|apply Forall_nil]]. split; [exact Ho|exact Hc].
+      * split; [split; [assumption|rewrite Ern; split; assumption]|apply Forall_cons; [apply G; apply Hn|apply Forall_nil]].
     + cbn [fst snd]. split; [split; [assumption|rewrite Ern; exact Logic.I]|constructor].
 Qed.
 
@@ -177,7 +188,7 @@ Proof.
   apply H. apply in_removelast. exact Hx.
 Qed.
 
-(* a labelled output owned by user `cur` lies inside cur's base unless it is the parent of the base itself *)
+(* a labelled output lies inside its owner's base unless it is the parent of the base itself *)
 Lemma realise_confined users l : lab_ok l -> (l_parent l = false \/ l_names l <> []) ->
   confined (base_of users (l_owner l)) (realise users l) = true.
 Proof.
@@ -194,49 +205,79 @@ Proof.
   - cbn [anchor parts]. rewrite Z.eqb_refl, is_prefix_app, skipn_length_app, Hd. reflexivity.
 Qed.
 
-Definition step_confined (users : list suser) (co : nat * list lab) : Prop :=
-  Forall (fun l => l_owner l = fst co -> (l_parent l = false \/ l_names l <> []) ->
-                   confined (base_of users (fst co)) (realise users l) = true) (snd co).
+Lemma realise_root_parent users l : l_parent l = true -> l_names l = [] ->
+  realise users l = parent (base_of users (l_owner l)).
+Proof.
+  intros Hp Hn. unfold realise. rewrite Hp, Hn, app_nil_r.
+  destruct (base_of users (l_owner l)) as [a ps]. reflexivity.
+Qed.
 
-Lemma prun_confined users h : homes_ok users -> forall ps, pinv ps ->
-  Forall (step_confined users) (pspec_run users ps h).
+Lemma prun_good users h : homes_ok users -> forall ps, pinv ps ->
+  Forall (fun co => Forall (lab_good (fst co)) (snd co)) (pspec_run users ps h).
 Proof.
   intro Hh. induction h as [|e h IH]; intros ps Hi; cbn [pspec_run]; [constructor|].
   destruct (pstep_inv users ps e Hh Hi) as [Hi' Hl].
   destruct (pspec_step users ps e) as [ps' lo]. cbn [fst snd] in *.
-  constructor; [|apply IH; exact Hi'].
-  unfold step_confined. cbn [fst snd]. rewrite Forall_forall in *. intros l Hin Ho Hx.
-  rewrite <- Ho. apply realise_confined; [apply Hl; exact Hin|exact Hx].
+  constructor; [exact Hl|apply IH; exact Hi'].
 Qed.
 
-Theorem session_confined_partial users i u h : homes_ok users -> nth_error users i = Some u ->
-  Forall (step_confined users) (pspec_run users (spec_start i u) h).
+Lemma start_pinv users i u : homes_ok users -> nth_error users i = Some u -> pinv (spec_start i u).
 Proof.
-  intros Hh E. apply prun_confined; [exact Hh|]. split; cbn [spec_start p_stack p_rnfr]; [|exact Logic.I].
+  intros Hh E. split; cbn [spec_start p_stack p_rnfr]; [|exact Logic.I].
   apply (proj2 (homes_nth users i u Hh E)).
 Qed.
 
-(* histories without STOR/APPE and RNTO: every path handed to the backend lies in the base of the
-   user logged in at that moment -- stated on the handler model itself *)
-Definition plain_ev (e : sev) : bool :=
-  match e with EStor _ | ERnto _ _ => false | _ => true end.
+(* no path resolved under a previous login is ever handed to the backend after a re-login:
+   every labelled output of every command is owned by the user logged in when the command ran *)
+Theorem session_owner_current users i u h : homes_ok users -> nth_error users i = Some u ->
+  Forall (fun co => Forall (fun l => l_owner l = fst co) (snd co)) (pspec_run users (spec_start i u) h).
+Proof.
+  intros Hh E. pose proof (prun_good users h Hh (spec_start i u) (start_pinv users i u Hh E)) as H.
+  eapply Forall_impl; [|exact H]. intros co Hc. eapply Forall_impl; [|exact Hc]. intros l [Ho _]. exact Ho.
+Qed.
 
-Lemma plain_owner users ps e : plain_ev e = true ->
-  Forall (fun l => l_owner l = p_cur ps /\ l_parent l = false) (snd (pspec_step users ps e)).
+(* on the handler model itself: every path handed to the backend by a command lies inside the base
+   directory of the user logged in when the command ran, or is the parent of that base directory
+   (the reachability probe of STOR/APPE on the virtual root, finding F19) *)
+Theorem session_confined users i u h : homes_ok users -> nth_error users i = Some u ->
+  Forall (fun bo => Forall (fun p => confined (fst bo) p = true \/ p = parent (fst bo)) (snd bo))
+         (sess_run users (sess_start u) h).
+Proof.
+  intros Hh E. rewrite (session_spec users i u h Hh E).
+  pose proof (prun_good users h Hh (spec_start i u) (start_pinv users i u Hh E)) as Hg.
+  induction (pspec_run users (spec_start i u) h) as [|co r IH]; cbn [map]; [constructor|].
+  inversion Hg as [|? ? Hg1 Hg2]; subst. constructor; [|apply IH; exact Hg2].
+  cbn [fst snd]. rewrite Forall_forall in *. intros p Hin.
+  apply in_map_iff in Hin. destruct Hin as [l [<- Hl]].
+  destruct (Hg1 l Hl) as [Ho Hok]. rewrite <- Ho.
+  destruct (l_parent l) eqn:Ep.
+  - destruct (l_names l) eqn:En.
+    + right. apply realise_root_parent; assumption.
+    + left. apply realise_confined; [exact Hok|right; rewrite En; discriminate].
+  - left. apply realise_confined; [exact Hok|left; exact Ep].
+Qed.
+
+(* histories without STOR/APPE: plain confinement *)
+Definition plain_ev (e : sev) : bool :=
+  match e with EStor _ => false | _ => true end.
+
+Lemma plain_noparent users ps e : plain_ev e = true ->
+  Forall (fun l => l_parent l = false) (snd (pspec_step users ps e)).
 Proof.
   intro Hp. destruct e as [i|c|s|s|s ok|s ok]; cbn [pspec_step]; try discriminate.
   - destruct (nth_error users i); constructor.
   - destruct c; repeat constructor.
   - repeat constructor.
-  - repeat constructor.
+  - destruct ok; repeat constructor.
+  - destruct (p_rnfr ps) as [[o c]|]; [destruct ok|]; repeat constructor.
 Qed.
 
 Lemma prun_plain users h : forallb plain_ev h = true -> forall ps,
-  Forall (fun co => Forall (fun l => l_owner l = fst co /\ l_parent l = false) (snd co)) (pspec_run users ps h).
+  Forall (fun co => Forall (fun l => l_parent l = false) (snd co)) (pspec_run users ps h).
 Proof.
   induction h as [|e h IH]; intros Hp ps; cbn [pspec_run]; [constructor|].
   cbn [forallb] in Hp. apply andb_true_iff in Hp. destruct Hp as [He Hh].
-  pose proof (plain_owner users ps e He) as Ho.
+  pose proof (plain_noparent users ps e He) as Ho.
   destruct (pspec_step users ps e) as [ps' lo]. cbn [fst snd] in *.
   constructor; [exact Ho|apply IH; exact Hh].
 Qed.
@@ -246,14 +287,14 @@ Theorem session_confined_plain users i u h : homes_ok users -> nth_error users i
   Forall (fun bo => Forall (fun p => confined (fst bo) p = true) (snd bo)) (sess_run users (sess_start u) h).
 Proof.
   intros Hh E Hp. rewrite (session_spec users i u h Hh E).
-  pose proof (session_confined_partial users i u h Hh E) as Hc.
+  pose proof (prun_good users h Hh (spec_start i u) (start_pinv users i u Hh E)) as Hg.
   pose proof (prun_plain users h Hp (spec_start i u)) as Ho.
   induction (pspec_run users (spec_start i u) h) as [|co r IH]; cbn [map]; [constructor|].
-  inversion Hc as [|? ? Hc1 Hc2]; subst. inversion Ho as [|? ? Ho1 Ho2]; subst.
+  inversion Hg as [|? ? Hg1 Hg2]; subst. inversion Ho as [|? ? Ho1 Ho2]; subst.
   constructor; [|apply IH; assumption].
-  cbn [fst snd]. unfold step_confined in Hc1. rewrite Forall_forall in *.
+  cbn [fst snd]. rewrite Forall_forall in *.
   intros p Hin. apply in_map_iff in Hin. destruct Hin as [l [<- Hl]].
-  destruct (Ho1 l Hl) as [Hown Hpar]. apply Hc1; [exact Hl|exact Hown|left; exact Hpar].
+  destruct (Hg1 l Hl) as [Hown Hok]. rewrite <- Hown. apply realise_confined; [exact Hok|left; apply Ho1; exact Hl].
 Qed.
 
 (* what get_paths returns for a path command depends on the current user's base, the current
@@ -263,21 +304,9 @@ Theorem path_output_history_independent users st1 st2 s :
   snd (sess_step users st1 (EPath s)) = snd (sess_step users st2 (EPath s)).
 Proof. intros Hb Hc. cbn [sess_step snd]. rewrite Hb, Hc. reflexivity. Qed.
 
-(* ---- the two exceptions are real ---- *)
+(* ---- the remaining exception is real ---- *)
 Definition t_alice : suser := mkuser (parse [47;97;108;105;99;101]) (parse [47]).   (* base /alice *)
 Definition t_bob : suser := mkuser (parse [47;98;111;98]) (parse [47]).             (* base /bob *)
-
-(* alice: RNFR /f (350); re-login as bob; RNTO /g (250): rename(/alice/f, /bob/g) in bob's session *)
-Theorem rnfr_carried_refuted :
-  exists users i u h, homes_ok users /\ nth_error users i = Some u /\
-    Exists (fun bo => Exists (fun p => confined (fst bo) p = false) (snd bo)) (sess_run users (sess_start u) h).
-Proof.
-  exists [t_alice; t_bob], 0%nat, t_alice, [ERnfr [47;102] true; ELogin 1; ERnto [47;103] true].
-  split; [|split; [reflexivity|]].
-  - repeat constructor; cbn; try discriminate.
-  - apply Exists_cons_tl. apply Exists_cons_tl. apply Exists_cons_hd.
-    apply Exists_cons_tl. apply Exists_cons_hd. vm_compute. reflexivity.
-Qed.
 
 (* STOR / : is_dir(base_path.parent) *)
 Theorem stor_root_parent_refuted :
@@ -289,3 +318,9 @@ Proof.
   - repeat constructor; cbn; try discriminate.
   - apply Exists_cons_hd. apply Exists_cons_hd. vm_compute. reflexivity.
 Qed.
+
+(* the former witness of F18 (RNFR as alice; re-login as bob; RNTO): the RNTO is refused before any path is looked at *)
+Example rnfr_not_carried :
+  sess_run [t_alice; t_bob] (sess_start t_alice) [ERnfr [47;102] true; ELogin 1; ERnto [47;103] true]
+  = [ (u_base t_alice, [mkp 1 [[97;108;105;99;101];[102]]]); (u_base t_alice, []); (u_base t_bob, []) ].
+Proof. vm_compute. reflexivity. Qed.
